@@ -1,7 +1,9 @@
+#[cfg(test)]
+use crate::util::t::NoUnits;
 use crate::{
     util::{
-        rangeint::{RFrom, RInto},
-        t::{NoUnits, NoUnits128, C, C128},
+        rangeint::RInto,
+        t::{NoUnits128, C, C128},
     },
     Unit,
 };
@@ -177,62 +179,6 @@ impl RoundMode {
             quotient.saturating_mul(increment)
         }
         inner(self, quantity.rinto(), increment.rinto())
-    }
-
-    pub(crate) fn round_float(
-        self,
-        quantity: f64,
-        increment: NoUnits128,
-    ) -> NoUnits128 {
-        #[cfg(not(feature = "std"))]
-        use crate::util::libm::Float;
-
-        let quotient = quantity / (increment.get() as f64);
-        let rounded = match self {
-            RoundMode::Ceil => quotient.ceil(),
-            RoundMode::Floor => quotient.floor(),
-            RoundMode::Expand => {
-                if quotient < 0.0 {
-                    quotient.floor()
-                } else {
-                    quotient.ceil()
-                }
-            }
-            RoundMode::Trunc => quotient.trunc(),
-            RoundMode::HalfCeil => {
-                if quotient.abs() % 1.0 == 0.5 {
-                    quotient.ceil()
-                } else {
-                    quotient.round()
-                }
-            }
-            RoundMode::HalfFloor => {
-                if quotient.abs() % 1.0 == 0.5 {
-                    quotient.floor()
-                } else {
-                    quotient.round()
-                }
-            }
-            RoundMode::HalfExpand => {
-                quotient.signum() * quotient.abs().round()
-            }
-            RoundMode::HalfTrunc => {
-                if quotient.abs() % 1.0 == 0.5 {
-                    quotient.trunc()
-                } else {
-                    quotient.round()
-                }
-            }
-            RoundMode::HalfEven => {
-                if quotient.abs() % 1.0 == 0.5 {
-                    quotient.trunc() + (quotient % 2.0)
-                } else {
-                    quotient.round()
-                }
-            }
-        };
-        let rounded = NoUnits::new(rounded as i64).unwrap();
-        NoUnits128::rfrom(rounded.saturating_mul(increment))
     }
 }
 
